@@ -398,7 +398,7 @@ def run_check(prop: str, tier: str, seed: int) -> int:
     # clean scratch
     import shutil
 
-    if rc == 0 or os.environ.get("VERIF_KEEP_WORK") is None:
+    if os.environ.get("VERIF_KEEP_WORK") is None:
         shutil.rmtree(work, ignore_errors=True)
     return rc
 
